@@ -181,17 +181,27 @@ def run(P, C, tier):
         if ce0 is not None and ce0.get("err") is not None:
             r2 = b.reachable(ce0["err"], avoid_blocks=closers, avoid_edges=rb_err)
             leak_commit = any(x in r2 for x in b.exits())
-        # which call's error edge leaks (for the report)
+        # every error edge inside the transaction: the tested result of ANY call between BEGIN and COMMIT (not only the writes).
+        # The decision is taken per error edge (local, short paths): a walk from BEGIN over the whole function meets infeasible
+        # combinations once error handling goes through a helper (`Self::rollback_on_error(x.write(conn), conn)?`: Ok arm of the
+        # helper followed by the Break edge of the `?`)
         leaks = []
-        for bi, t in writes + [(commit, b.blocks[commit]["t"])]:
+        for bi, t in b.live_calls():
+            if bi in (begin,) or bi in closers or not b.dominates(begin, bi) or b.dominates(commit, bi) and bi != commit:
+                continue
+            if "d:QuestionMark" in t["at"][1] and callee_name(t).endswith("Try>::branch"):
+                continue
             re_ = mir.result_edges(b, bi)
             if re_ is None or re_.get("err") is None:
                 continue
+            adt_ = b.switch_term(re_["switch"], expand_vars=False)
+            if adt_[0] != "discr" or not re.search(r"(result::Result|ops::ControlFlow|control_flow::ControlFlow)$", adt_[2]):
+                continue        # an Option (iterator end, lookup miss) is not an error
             r3 = b.reachable(re_["err"], avoid_blocks=closers, avoid_edges=rb_err)
             if any(x in r3 for x in b.exits()):
                 leaks.append("%s at %s" % (mir.short(callee_name(t)) if bi != commit else "COMMIT", b.loc(bi)))
-        C.ob("R10", "transaction-closed-on-every-return", not open_exits and not leak_commit, b.loc(begin),
-             "returns reachable from BEGIN without COMMIT/ROLLBACK: %s" % (leaks or "none"))
+        C.ob("R10", "transaction-closed-on-every-return", not leaks, b.loc(begin),
+             "error edges between BEGIN and COMMIT that reach a return without ROLLBACK: %s" % (leaks or "none"))
     # R3
     C.ob("R3", "marks-exist", len(marks) == 1, b.loc(), "exactly one DailyMutations::write(conn) call", nontrivial=False)
     for m in marks:
